@@ -310,11 +310,22 @@ def stream_job(ctx, col, case, tag, rng, job, faults, lat, perturb=True):
                         break
             verdict = "finished" if finished else ("stalled" if stalled else "watchdog")
     finally:
-        try:
-            p.disconnect()
-        except Exception:
-            pass
+        # disconnect() joins the library's threads without a timeout: do it on the side, and if it does
+        # not come back close the device under it (blocked reads/writes then fail and the threads end)
+        def _disconnect():
+            try:
+                p.disconnect()
+            except Exception:
+                pass
+        td = threading.Thread(target=_disconnect, name="harness-disconnect", daemon=True)
+        td.start()
+        td.join(15)
         dev.close()
+        if td.is_alive():
+            td.join(15)
+            col.count("disconnect_needed_device_close")
+            if td.is_alive():
+                col.inconclusive_case(f"{tag}: printcore.disconnect() never returned")
     col.count("line_events_seen", pert.line_events)
     col.count("yields_injected", pert.injected)
     col.count("delay_point_hits", pert.point_hits)
